@@ -336,7 +336,9 @@ class FragGraphGen:
                     if sub:
                         sel.append({"k": "inline", "on": m, "dirs": [], "sel": sub})
                         has_subtype_classes = True
-                elif r < self.f["inline_obj"] + self.f["spread_sub"]:
+                elif r < self.f["inline_obj"] + self.f["spread_sub"] and not in_fragment:
+                    # (inside a fragment that gets unpacked such a spread is dropped from the class and from the
+                    # sent document: C01/C02 finding region, not generated here)
                     fn = self.get_fragment(m, depth, scope, "mixin")
                     if fn:
                         sel.append(self.spread(fn))
@@ -640,8 +642,9 @@ def observe_package(root: Path, case: Dict[str, Any]) -> Dict[str, Any]:
                 failed = _classify(e)
             line["listing"] = list(fg._fragments_names)
             gens = log[n0:]
-            for g in gens:
-                inherited |= set(g.get_fragments_used_as_mixins())
+            if len(gens) == len(line["listing"]):  # every fragment generator ran (a failure, if any, is in the sort)
+                for g in gens:
+                    inherited |= set(g.get_fragments_used_as_mixins())
             if module is not None:
                 classes = [obs_result.class_to_json(c) for c in module.body if isinstance(c, ast.ClassDef)]
                 rebuilds = [st.value.func.value.id for st in module.body
@@ -652,7 +655,8 @@ def observe_package(root: Path, case: Dict[str, Any]) -> Dict[str, Any]:
                 fragments_ir = {"order": order_rec[0] if order_rec else None, "classes": classes, "rebuilds": rebuilds,
                                 "deps": [[g._operation_name, sorted(g.get_fragments_used_as_mixins())] for g in gens],
                                 "mixinImports": mixin_imports, "publicNames": list(fg.get_generated_public_names())}
-        trigger = bool(set(excluded) & inherited)
+        # the trigger speaks about packages whose operations all generate
+        trigger = bool(set(excluded) & inherited) and len(ops_ir) == len(op_nodes)
         if failed is not None:
             impl = {"failed": failed, "before": {"ops": ops_ir, "excluded": excluded}, "trigger": trigger}
         else:
@@ -680,13 +684,19 @@ def class_tables(ir: Dict[str, Any]) -> Dict[str, List[List[Any]]]:
 
 
 def real_mro(table: List[List[Any]]) -> List[Optional[List[str]]]:
-    """CPython's own answer: create the classes of the table top-down (externals = fresh root classes)"""
+    """CPython's own answer: create the classes of the table top-down (externals = fresh root classes).
+    A class one of whose bases could not be created cannot be created either (the import has died)."""
     ns: Dict[str, type] = {}
+    failed: Set[str] = set()
     out: List[Optional[List[str]]] = []
     for name, bases in table:
-        if name in ns:
+        if name in ns or name in failed:
             # a later definition of the same name rebinds it in Python; the model looks up the first: keep the first
-            out.append([c.__name__ for c in ns[name].__mro__ if c is not object])
+            out.append(None if name in failed else [c.__name__ for c in ns[name].__mro__ if c is not object])
+            continue
+        if any(b in failed for b in bases):
+            failed.add(name)
+            out.append(None)
             continue
         bs = []
         for b in bases:
@@ -698,7 +708,7 @@ def real_mro(table: List[List[Any]]) -> List[Optional[List[str]]]:
             out.append([c.__name__ for c in ns[name].__mro__ if c is not object])
         except TypeError:
             out.append(None)
-            ns[name] = type(name, (), {})
+            failed.add(name)
     return out
 
 
@@ -828,3 +838,313 @@ def measure(res: Result, label: str, case: Dict[str, Any], impl: Dict[str, Any])
         res.count(f"{label}:fragment-inherited-by-2+-operations")
     if impl.get("excluded") or (impl.get("before") or {}).get("excluded"):
         res.count(f"{label}:some-fragment-unpacked")
+
+
+# --------------------------------------------------------------------------------------------
+# oracle: the property itself on the real package (forked child)
+# --------------------------------------------------------------------------------------------
+
+
+def _named(t: Any) -> Any:
+    while hasattr(t, "of_type"):
+        t = t.of_type
+    return t
+
+
+class _Walker:
+    """Walks an executed operation next to the object the generated client returned.
+
+    `static` = the parent type GraphQL validation assigns to a selection set, `narrow` = the type it is
+    evaluated for once enclosing type conditions that are *supertypes* of the position are discounted.
+    A spread qualifies only where both readings agree (never demanding more than the property states)."""
+
+    def __init__(self, schema: Any, doc: Any, fragmod: Any, all_mixins: Set[str]) -> None:
+        from graphql import FragmentDefinitionNode
+
+        self.schema = schema
+        self.frags = {d.name.value: d for d in doc.definitions if isinstance(d, FragmentDefinitionNode)}
+        self.fragmod = fragmod
+        self.all_mixins = all_mixins
+        self.problems: List[Dict[str, Any]] = []
+        self.checks = 0
+        self.mixin_checks = 0
+        self.visited: Dict[int, List[Any]] = {}  # id(obj) -> [obj, expected mixin names, times reached]
+
+    def applies(self, cond: str, rt: str) -> bool:
+        from graphql import is_abstract_type
+
+        if cond == rt:
+            return True
+        ct, rtt = self.schema.type_map.get(cond), self.schema.type_map.get(rt)
+        return bool(ct is not None and rtt is not None and is_abstract_type(ct) and self.schema.is_sub_type(ct, rtt))
+
+    def narrower(self, cond: str, narrow: str) -> str:
+        """the type a selection set under type condition `cond` is evaluated for at a position of type `narrow`"""
+        from graphql import is_abstract_type
+
+        nt, ct = self.schema.type_map.get(narrow), self.schema.type_map.get(cond)
+        if cond == narrow or nt is None or ct is None:
+            return narrow
+        if is_abstract_type(nt) and self.schema.is_sub_type(nt, ct):
+            return cond  # narrower than the position
+        return narrow  # a supertype of the position (or unrelated): the position's type stays
+
+    def qualifies(self, f: Any, static: str, narrow: str) -> bool:
+        from graphql import GraphQLUnionType, InlineFragmentNode
+
+        on = f.type_condition.name.value
+        if on != static or on != narrow:
+            return False
+        if isinstance(self.schema.type_map.get(on), GraphQLUnionType):
+            return False
+        return not any(isinstance(s, InlineFragmentNode) for s in f.selection_set.selections)
+
+    def mixins_of(self, node: Any) -> List[str]:
+        out = []
+        for d in getattr(node, "directives", None) or ():
+            if d.name.value == "mixin":
+                for a in d.arguments:
+                    if a.name.value == "import" and hasattr(a.value, "value"):
+                        out.append(a.value.value)
+        return out
+
+    def note(self, obj: Any, expected: List[str]) -> None:
+        rec = self.visited.setdefault(id(obj), [obj, set(), 0])
+        rec[1] |= set(expected)
+        rec[2] += 1
+
+    def walk(self, selset: Any, static: str, narrow: str, rt: str, obj: Any, data: Dict[str, Any], path: str) -> None:
+        from graphql import FieldNode, FragmentSpreadNode, InlineFragmentNode
+        from pydantic import BaseModel
+
+        for s in selset.selections:
+            if isinstance(s, FragmentSpreadNode):
+                f = self.frags[s.name.value]
+                cond = f.type_condition.name.value
+                if not self.applies(cond, rt):
+                    continue
+                if self.qualifies(f, static, narrow):
+                    self.checks += 1
+                    cls = getattr(self.fragmod, pascal(f.name.value), None) if self.fragmod is not None else None
+                    where = {"path": path, "fragment": f.name.value, "class": type(obj).__name__}
+                    if cls is None:
+                        self.problems.append({"problem": "fragment-class-missing-from-fragments-module", **where})
+                    elif not isinstance(obj, cls):
+                        self.problems.append({"problem": "not-instance-of-fragment-class", **where,
+                                              "mro": [c.__name__ for c in type(obj).__mro__][:8]})
+                    else:
+                        try:
+                            cls.model_validate(data)
+                        except Exception as e:  # noqa: BLE001
+                            self.problems.append({"problem": "fragment-class-rejects-payload", **where, "error": str(e)[:300]})
+                self.walk(f.selection_set, cond, self.narrower(cond, narrow), rt, obj, data, path + f"/...{f.name.value}")
+            elif isinstance(s, InlineFragmentNode):
+                cond = s.type_condition.name.value if s.type_condition else static
+                if self.applies(cond, rt):
+                    self.walk(s.selection_set, cond, self.narrower(cond, narrow), rt, obj, data, path + f"/...on {cond}")
+            elif isinstance(s, FieldNode) and s.selection_set is not None:
+                key = s.alias.value if s.alias else s.name.value
+                parent = self.schema.type_map.get(rt)
+                fdef = getattr(parent, "fields", {}).get(s.name.value)
+                if fdef is None or key not in data or not isinstance(obj, BaseModel):
+                    continue
+                attr = next((n for n, fi in type(obj).model_fields.items() if (fi.alias or n) == key), None)
+                if attr is None:
+                    continue
+                t = _named(fdef.type).name
+                self.visit_value(s, t, getattr(obj, attr), data[key], f"{path}.{key}")
+
+    def visit_value(self, field: Any, t: str, value: Any, data: Any, path: str) -> None:
+        from graphql import is_abstract_type
+        from pydantic import BaseModel
+
+        if data is None or value is None:
+            return
+        if isinstance(data, list):
+            if isinstance(value, list) and len(value) == len(data):
+                for i, (v, d) in enumerate(zip(value, data)):
+                    self.visit_value(field, t, v, d, f"{path}[{i}]")
+            return
+        if not isinstance(data, dict) or not isinstance(value, BaseModel):
+            return
+        tt = self.schema.type_map.get(t)
+        rt = data.get("__typename") if is_abstract_type(tt) else t
+        if rt is None:
+            return  # runtime type unknown (no __typename in the payload): nothing can be demanded here
+        self.note(value, self.mixins_of(field))
+        self.walk(field.selection_set, t, t, rt, value, data, path)
+
+    def finish(self) -> None:
+        for obj, expected, times in self.visited.values():
+            if times != 1:
+                continue  # the same object reached through two field nodes (merged response key): not judged
+            self.mixin_checks += 1
+            got = {b.__name__ for b in type(obj).__bases__} & self.all_mixins
+            if got != expected:
+                self.problems.append({"problem": "mixin-base-missing" if expected - got else "mixin-base-unexpected",
+                                      "class": type(obj).__name__, "expected": sorted(expected), "bases": [b.__name__ for b in type(obj).__bases__]})
+
+
+@engine.with_scratch
+def oracle_child(root: Path, case: Dict[str, Any]) -> Dict[str, Any]:
+    import sys
+    import traceback
+
+    import httpx
+    from graphql import FragmentDefinitionNode, OperationDefinitionNode, build_schema, graphql_sync, parse
+
+    files = mixin_files(case)
+    paths = []
+    for name, text in files.items():
+        (root / name).write_text(text)
+        paths.append(str(root / name))
+    out: Dict[str, Any] = {}
+    try:
+        gen = engine.generate_client(root, case["sdl"], case["queries"], {"files_to_include": paths})
+    except BaseException as e:  # noqa: BLE001
+        return {"gen": engine.classify_exception(type(e).__name__), "message": str(e)[:400], "where": traceback.format_exc()[-900:]}
+    out["gen"] = "ok"
+    out["files"] = sorted(p.name for p in gen.dir.iterdir())
+    try:
+        pkg = engine.import_package(gen)
+    except BaseException as e:  # noqa: BLE001
+        out["import"] = f"{type(e).__name__}: {str(e)[:300]}"
+        return out
+    out["import"] = "ok"
+    fragmod = sys.modules.get(f"{gen.package}.fragments")
+    schema = build_schema(case["server_sdl"])
+    doc = parse(case["queries"])
+    all_mixins = {c for _, c in case.get("mixins", [])}
+    ops = {d.name.value: d for d in doc.definitions if isinstance(d, OperationDefinitionNode)}
+    from . import e2e
+
+    mm = e2e.method_map(gen.read("client.py"))
+    problems: List[Dict[str, Any]] = []
+    # fragment definitions carrying @mixin: the class generated for the fragment (if any) has exactly those extra bases
+    w0 = _Walker(schema, doc, fragmod, all_mixins)
+    static_checks = 0
+    for d in doc.definitions:
+        if isinstance(d, FragmentDefinitionNode) and fragmod is not None:
+            cls = getattr(fragmod, pascal(d.name.value), None)
+            if cls is not None:
+                static_checks += 1
+                got = {b.__name__ for b in cls.__bases__} & all_mixins
+                exp = set(w0.mixins_of(d))
+                if got != exp:
+                    problems.append({"problem": "mixin-base-missing" if exp - got else "mixin-base-unexpected", "class": cls.__name__,
+                                     "expected": sorted(exp), "bases": [b.__name__ for b in cls.__bases__]})
+    calls = []
+    for call in case.get("calls", []):
+        rec: Dict[str, Any] = {"op": call["op"]}
+        calls.append(rec)
+        m = mm.get(call["op"])
+        if m is None:
+            rec["outcome"] = "no-method"
+            continue
+        log: List[Dict[str, Any]] = []
+        resolver = resolve.Resolver(call.get("seed", 0), null_p=case.get("null_p", 0.08))
+
+        def handler(request: Any) -> Any:
+            body = json.loads(request.content)
+            r = graphql_sync(schema, body["query"], variable_values=body.get("variables"), operation_name=body.get("operationName"),
+                             field_resolver=resolver, type_resolver=resolve.Resolver.type_resolver)
+            payload: Dict[str, Any] = {"data": r.data}
+            if r.errors:
+                payload["errors"] = [e.formatted for e in r.errors]
+            log.append(payload)
+            return httpx.Response(200, json=payload)
+
+        try:
+            client = engine.make_generated_client(pkg, handler)
+            value = engine.call_method(client, m["method"], m["async"])
+            rec["outcome"] = "ok"
+        except BaseException as e:  # noqa: BLE001
+            rec["outcome"] = "exception"
+            rec["exception"] = type(e).__name__
+            rec["message"] = str(e)[:400]
+            continue
+        data = (log[0] if log else {}).get("data")
+        if not isinstance(data, dict):
+            continue
+        opnode = ops[call["op"]]
+        root_t = {"query": schema.query_type, "mutation": schema.mutation_type, "subscription": schema.subscription_type}[opnode.operation.value].name
+        w = _Walker(schema, doc, fragmod, all_mixins)
+        w.note(value, w.mixins_of(opnode))
+        w.walk(opnode.selection_set, root_t, root_t, root_t, value, data, "$")
+        w.finish()
+        rec["checks"] = w.checks
+        rec["mixin_checks"] = w.mixin_checks
+        rec["problems"] = w.problems[:10]
+    out["calls"] = calls
+    out["static_checks"] = static_checks
+    out["static_problems"] = problems
+    return out
+
+
+def classify_failure(case: Dict[str, Any], ir: Dict[str, Any], obs: Dict[str, Any]) -> List[Tuple[str, Optional[str], str]]:
+    """-> [(signature, trigger, detail)] for one judged package (empty = the property holds on it)"""
+    out: List[Tuple[str, Optional[str], str]] = []
+    f1 = bool(ir.get("trigger"))
+    f3 = mro_conflict(ir) if ir else False
+    bad_names: Set[str] = set()
+    if f1:
+        inherited: Set[str] = set()
+        ops = ir.get("ops") or (ir.get("before") or {}).get("ops") or []
+        for o in ops:
+            inherited |= set(o["mixins"])
+        for n, ds in ((ir.get("fragments") or {}).get("deps") or []):
+            inherited |= set(ds)
+        excluded = set(ir.get("excluded") or (ir.get("before") or {}).get("excluded") or [])
+        bad_names = {pascal(n) for n in (excluded & inherited)} if inherited else set()
+    if obs["gen"] != "ok":
+        if obs["gen"].startswith("internal:"):
+            trig = None
+            if obs["gen"] == "internal:KeyError" and f1 and "_get_sorted_fragments_names" in obs.get("where", ""):
+                trig = TRIG_F1
+            out.append(("generation-dies:" + obs["gen"].split(":", 1)[1] + ("-in-fragments-sort" if trig else ""), trig,
+                        obs.get("message", "")))
+        elif not case.get("malformed"):
+            out.append(("valid-input-refused:" + obs["gen"].split(":", 1)[1], None, obs.get("message", "")))
+        return out
+    if obs["import"] != "ok":
+        msg = obs["import"]
+        trig, sig = None, "package-does-not-import:" + msg.split(":", 1)[0]
+        m = re.search(r"cannot import name '(\w+)' from '[\w.]*fragments'", msg)
+        if f1 and m and (not bad_names or m.group(1) in bad_names):
+            trig, sig = TRIG_F1, "import-error:fragment-class-missing-from-fragments-module"
+        elif f1 and re.search(r"No module named '[\w.]*\.fragments'", msg) and "fragments.py" not in obs.get("files", []):
+            trig, sig = TRIG_F1, "import-error:no-fragments-module"
+        elif f3 and msg.startswith("TypeError") and "method resolution" in msg:
+            trig, sig = TRIG_F3, "import-error:inconsistent-mro"
+        out.append((sig, trig, msg))
+        return out
+    for p in obs.get("static_problems", []):
+        out.append((p["problem"], None, json.dumps(p)[:300]))
+    for c in obs.get("calls", []):
+        for p in c.get("problems", []):
+            out.append((p["problem"], None, json.dumps(p)[:400]))
+    return out
+
+
+def oracle(ctx: Ctx, res: Result, cases: List[Dict[str, Any]], irs: List[Dict[str, Any]], label: str) -> None:
+    _quiet()
+    obs = engine.pmap_forked(oracle_child, [(c,) for c in cases], timeout=300)
+    for case, ir, (status, o) in zip(cases, irs, obs):
+        if status != "ok":
+            if status == "timeout":
+                res.count(f"{label}:timeout")
+                continue
+            raise common.Infra(f"oracle child failed on {case['id']}: {status} {o}")
+        res.count(f"{label}:packages")
+        for c in o.get("calls", []):
+            if c.get("outcome") == "exception":
+                # whether a call succeeds is C01's / C02's claim; here it only means nothing could be judged
+                res.count(f"{label}:unjudged-call:{c.get('exception')}")
+        checks = sum(c.get("checks", 0) for c in o.get("calls", []))
+        mchecks = sum(c.get("mixin_checks", 0) for c in o.get("calls", [])) + o.get("static_checks", 0)
+        res.count(f"{label}:instance+validate checks", checks)
+        res.count(f"{label}:@mixin base checks", mchecks)
+        res.seen(["oracle", case["sdl"], case["queries"]], nontrivial=checks > 0 or o.get("import") != "ok" or o.get("gen") != "ok")
+        for sig, trig, detail in classify_failure(case, ir, o):
+            res.count(f"{label}:failure:{sig}")
+            res.failures.append(Failure(sig, trig, {"case": slim(case)}, detail))
